@@ -2,6 +2,7 @@ import Rare.Proofs.C04
 import Rare.Proofs.C04Buf
 import Rare.Proofs.C04Tie
 import Rare.Proofs.C04More
+import Rare.Proofs.C04Held
 import Rare.Proofs.Batcher
 import Rare.Model.C04Sync
 import Rare.Gen.C04
@@ -519,5 +520,83 @@ theorem imm_read_room_positive (s : Imm) (C : Bytes) (h : Inv s C) :
     0 < s.grown.cap - s.grown.buf.length := by
   have := (grown_spec h).2.2.1
   omega
+
+/-! ## Round 4b: every retained array bounded; held slices intact at every later call and between any two
+    micro-steps of `Scan()` -/
+
+/-- Memory, all arrays: every backing array the immediate scanner ever allocated - the current one and every
+    archived one that a held slice may keep alive - is at most `|w| + bufSize` long for an unterminated
+    fragment `w` of the input (`w = []`: the initial size).  Closes the gap left by `imm_alloc_bound`, which
+    spoke about the current array only. -/
+theorem imm_alloc_bound_all (b : Nat) (data : Bytes) (script : List Step) (fuel k : Nat) (h : 1 ≤ b) :
+    ∀ a ∈ (Imm.scanAll fuel k (Imm.init b ⟨data, script⟩)).2.2.arrays,
+      ∃ w, w <:+: data ∧ nl ∉ w ∧ a.length ≤ w.length + b := by
+  intro a ha
+  have hg := run_good b data script h
+  have h2 : (Imm.scanAll fuel k (Imm.init b ⟨data, script⟩)).2.2.bufSize = b :=
+    scanAll_closed (closed_bufSize b) fuel k hg (by simp [Imm.init])
+  have h3 : (Imm.scanAll fuel k (Imm.init b ⟨data, script⟩)).2.2.delivered ++
+      (Imm.scanAll fuel k (Imm.init b ⟨data, script⟩)).2.2.rd.rest = data :=
+    scanAll_closed (closed_stream data) fuel k hg (by simp [Imm.init])
+  have h4 := scanAll_allOK fuel k hg (allOK_init b ⟨data, script⟩)
+  generalize (Imm.scanAll fuel k (Imm.init b ⟨data, script⟩)).2.2 = s at *
+  have key : ∃ w, w <:+: s.delivered ∧ nl ∉ w ∧ a.length ≤ w.length + s.bufSize := by
+    simp only [Imm.arrays, List.mem_append, List.mem_singleton] at ha
+    rcases ha with ha | rfl
+    · exact h4.2.2 a ha
+    · rcases h4.2.1 with hc | ⟨w, hw, hn, hc⟩
+      · exact ⟨[], List.nil_infix, by simp, by have := h4.1; simp; omega⟩
+      · exact ⟨w, hw, hn, by have := h4.1; omega⟩
+  obtain ⟨w, hw, hn, hl⟩ := key
+  exact ⟨w, by rw [← h3]; exact infix_append_right _ hw, hn, by rw [← h2]; exact hl⟩
+
+/-- "For as long as the caller holds it while later lines are scanned": a slice handed out by one of the first
+    `j` calls of `Scan()` is still handed out (same position) and reads back as its line after ANY number `k`
+    of further calls - not only once the stream has ended (`imm_tokens_stable`, `buf_tokens_stable`).
+    Every fuel, i.e. also when a later call is still waiting in its read loop. -/
+theorem held_slices_intact_at_every_call (n : Nat) (data : Bytes) (script : List Step) (fuel j k : Nat) :
+    (1 ≤ n → ∀ vb ∈ (Imm.scanAll fuel j (Imm.init n ⟨data, script⟩)).1,
+      vb ∈ (Imm.scanAll fuel (j + k) (Imm.init n ⟨data, script⟩)).1 ∧
+      readView (Imm.scanAll fuel (j + k) (Imm.init n ⟨data, script⟩)).2.2.arrays vb.1 = vb.2) ∧
+    (2 ≤ n → 0 < fuel → ∀ vb ∈ (Buf.scanAll fuel j (Buf.init n ⟨data, script⟩)).1,
+      vb ∈ (Buf.scanAll fuel (j + k) (Buf.init n ⟨data, script⟩)).1 ∧
+      readView (Buf.scanAll fuel (j + k) (Buf.init n ⟨data, script⟩)).2.2.arrays vb.1 = vb.2) := by
+  refine ⟨fun h vb hvb => ?_, fun h hf vb hvb => ?_⟩
+  · have hm := (scanAll_prefix fuel j k _).subset hvb
+    exact ⟨hm, scanAll_views fuel (j + k) (run_good n data script h) vb hm⟩
+  · have hm := (bscanAll_prefix fuel j k _).subset hvb
+    exact ⟨hm, bscanAll_views fuel hf (j + k) (brun_good n data script h) vb hm⟩
+
+/-- Between any two micro-steps: `Scan()` is composed of exactly these state changes (`Imm.readLoop`,
+    `Imm.top`, `Buf.scan`) - the regrow (allocate + copy), a `Read` appending whatever bytes to `buf[end:]`,
+    setting the error flag, and handing out a token - and each of them leaves every valid slice readable
+    with the same contents.  So a consumer goroutine reading a held batch while the reader goroutine is in
+    the middle of `Scan()` (rare's batcher/extractor pipeline) sees unmodified lines.  For every state, not
+    only reachable ones. -/
+theorem held_slice_survives_every_step (s : Imm) (v : View) (hv : ViewOK s.arrays v) :
+    (readView s.grown.arrays v = readView s.arrays v ∧ ViewOK s.grown.arrays v) ∧
+    (∀ bs rd', readView (s.recv bs rd').arrays v = readView s.arrays v ∧ ViewOK (s.recv bs rd').arrays v) ∧
+    (∀ e, (s.fail e).arrays = s.arrays) ∧
+    (∀ k, (s.emitAt k).2.arrays = s.arrays) ∧ s.emitTail.2.arrays = s.arrays ∧
+    (∀ (t : Buf) (w : View), ViewOK t.arrays w → ∀ acc rd' eof' errs' dl',
+      readView ({ t with mem := t.mem ++ [t.buf], buf := acc, offset := 0, rd := rd', eof := eof',
+                         errs := errs', delivered := dl' } : Buf).arrays w = readView t.arrays w) :=
+  ⟨readView_ext (grown_ext s) hv, fun bs rd' => readView_ext (recv_ext s bs rd') hv,
+   fun _ => rfl, fun _ => rfl, rfl,
+   fun t _ hw acc rd' eof' errs' dl' => (readView_ext (refill_ext t acc rd' eof' errs' dl') hw).1⟩
+
+/-- Non-vacuity: a held slice of a full buffer, then the regrow and a Read of further bytes. -/
+example : ViewOK (({ Imm.init 2 ⟨[99, 10], []⟩ with buf := [97, 10], offset := 2 } : Imm)).arrays ⟨0, 0, 1⟩ := by
+  unfold ViewOK; decide
+
+example : readView (({ Imm.init 2 ⟨[99, 10], []⟩ with buf := [97, 10], offset := 2 } : Imm)).arrays ⟨0, 0, 1⟩ = [97] ∧
+    readView ((({ Imm.init 2 ⟨[99, 10], []⟩ with buf := [97, 10], offset := 2 } : Imm)).grown.recv [99, 10] ⟨[], []⟩).arrays
+      ⟨0, 0, 1⟩ = [97] ∧
+    ((({ Imm.init 2 ⟨[99, 10], []⟩ with buf := [97, 10], offset := 2 } : Imm)).grown.recv [99, 10] ⟨[], []⟩).arrays
+      = [[97, 10], [99, 10]] := by decide
+
+example : ((Imm.scanAll 9 1 (Imm.init 2 ⟨[97, 10, 98, 98, 98, 10], []⟩)).1.map (·.1)) = [⟨0, 0, 1⟩] ∧
+    readView (Imm.scanAll 9 2 (Imm.init 2 ⟨[97, 10, 98, 98, 98, 10], []⟩)).2.2.arrays ⟨0, 0, 1⟩ = [97] ∧
+    (Imm.scanAll 9 2 (Imm.init 2 ⟨[97, 10, 98, 98, 98, 10], []⟩)).2.2.arrays.map (·.length) = [2, 2, 4] := by decide
 
 end Rare.C04
